@@ -24,12 +24,13 @@ import (
 
 // Fault kinds.
 const (
-	KDelay    = "delay"    // deliver the message DelayNs later than it would have been
-	KWithhold = "withhold" // hold the message until the issuing op has returned, then deliver after DelayNs
-	KDrop     = "drop"     // the message vanishes (peer never answered / request lost before the app saw it)
-	KStall    = "stall"    // this message and everything after it in this direction never arrives
-	KReset    = "reset"    // instead of delivering the message the connection is reset (both ends see an error)
-	KRefuse   = "refuse"   // Dir "dial": connection refused
+	KDelay      = "delay"       // deliver the message DelayNs later than it would have been
+	KWithhold   = "withhold"    // hold the message until the issuing op has returned, then deliver after DelayNs
+	KDrop       = "drop"        // the message vanishes (peer never answered / request lost before the app saw it)
+	KStall      = "stall"       // this message and everything after it in this direction never arrives
+	KReset      = "reset"       // instead of delivering the message the connection is reset (both ends see an error)
+	KRefuse     = "refuse"      // Dir "dial": connection refused
+	KCloseAfter = "close-after" // deliver the message, then the sender's side resets the connection at once (peer restarts right after answering)
 )
 
 // Fault addresses one message (or dial) by logical identity.
@@ -64,6 +65,7 @@ type Msg struct {
 	DeliverAt int64  `json:"deliver_at"` // -1 = never / not yet scheduled
 	Delivered bool   `json:"delivered"`  // bytes were made readable at the receiver while it was open
 	Fault     string `json:"fault,omitempty"`
+	Benign    bool   `json:"benign,omitempty"` // a short delay only: every answer still arrives long before any timeout
 	Raw       []byte `json:"-"`
 	F         Fields `json:"f"`
 }
@@ -188,7 +190,7 @@ func (n *Net) FaultFiredOn(task, op int) bool {
 	n.mu.Lock()
 	defer n.mu.Unlock()
 	for _, m := range n.msgs {
-		if m.Task == task && m.Op == op && m.Fault != "" {
+		if m.Task == task && m.Op == op && m.Fault != "" && !m.Benign {
 			return true
 		}
 	}
@@ -563,6 +565,7 @@ func (e *end) emit(c *chunk, m *Msg) {
 	m.Fault = f.Kind
 	switch f.Kind {
 	case KDelay:
+		m.Benign = f.DelayNs <= 3_000_000_000
 		e.schedule(c, f.DelayNs)
 	case KWithhold:
 		e.holding = true
@@ -571,6 +574,13 @@ func (e *end) emit(c *chunk, m *Msg) {
 	case KDrop:
 	case KStall:
 		e.stalled = true
+	case KCloseAfter:
+		e.schedule(c, 0)
+		e.schedule(&chunk{rst: true}, 0) // FIFO: arrives one simulated nanosecond after the message
+		self := e
+		time.AfterFunc(time.Duration(e.p.net().latency(e.p.key, 7, uint64(e.wOrd))), func() {
+			self.deliver(&chunk{rst: true})
+		})
 	case KReset:
 		// both ends observe a reset after one latency
 		e.schedule(&chunk{rst: true}, 0)
